@@ -102,9 +102,26 @@ func c05Vals(l string) (out [c05MaxBlocks + 2][]byte) {
 	return out
 }
 
+// A task is named after its integration; the task of an integration on a source other than src1 is
+// "<integration>@<source>".
+func c05Split(name string) (ig, src string) {
+	if i := strings.IndexByte(name, '@'); i >= 0 {
+		return name[:i], name[i+1:]
+	}
+	return name, "src1"
+}
+
+func c05Key(ig, src string) string {
+	if src == "src1" || src == "" {
+		return ig
+	}
+	return ig + "@" + src
+}
+
 type c05Graph struct {
 	decls []*world.Decl       // config order
-	deps  map[string][]string // dependent -> referenced integrations
+	deps  map[string][]string // dependent TASK -> referenced integrations (positions are per source)
+	two   bool                // a second source "src2" (node2, same chain) is configured
 }
 
 func c05Decls(j c05Job) *c05Graph {
@@ -166,6 +183,32 @@ func c05Decls(j c05Job) *c05Graph {
 			d.FilterAgg = "or"
 		}
 		g.decls, g.deps["d"] = []*world.Decl{r1, r2, d}, []string{"r1", "r2"}
+	case "pair", "pair-rev":
+		// two dependents on two DIFFERENT references: D -> R1 (event input), E -> R2 (log_addr); both listing orders
+		d.Inputs[0].Op, d.Inputs[0].Ref = "contains", refR1
+		e := &world.Decl{Name: "e", Table: "et", Event: "Transfer", Sources: src(1), Inputs: []world.Input{
+			{Name: "from", Type: "address", Indexed: true, Column: "c_from"},
+			{Name: "to", Type: "address", Indexed: true, Column: "c_to"},
+			{Name: "value", Type: "uint256", Column: "c_value"}},
+			Fields: []world.Field{{Name: "log_addr", Column: "log_addr", Op: "contains", Ref: refR2}}}
+		g.decls = []*world.Decl{r1, r2, d, e}
+		if j.Graph == "pair-rev" {
+			g.decls = []*world.Decl{r2, r1, e, d}
+		}
+		g.deps["d"], g.deps["e"] = []string{"r1"}, []string{"r2"}
+	case "twosrc": // D on src1 and src2 -> R1, which is configured for src1 only: on src2 D has nothing to follow
+		d.Inputs[0].Op, d.Inputs[0].Ref = "contains", refR1
+		d.Sources = append(d.Sources, world.SrcRef{Name: "src2", Start: 1})
+		g.decls, g.two = []*world.Decl{r1, d}, true
+		g.deps["d"], g.deps["d@src2"] = []string{"r1"}, []string{"r1"}
+	case "twosrc-two": // D on both sources -> {R1 on src1 only, R2 on both}: on src2 R2 advances, R1 never records anything
+		d.Inputs[0].Op, d.Inputs[0].Ref = "contains", refR1
+		d.Fields = []world.Field{{Name: "log_addr", Column: "log_addr", Op: "contains", Ref: refR2}}
+		d.FilterAgg = "and"
+		d.Sources = append(d.Sources, world.SrcRef{Name: "src2", Start: 1})
+		r2.Sources = append(r2.Sources, world.SrcRef{Name: "src2", Start: 1})
+		g.decls, g.two = []*world.Decl{r1, r2, d}, true
+		g.deps["d"], g.deps["d@src2"] = []string{"r1", "r2"}, []string{"r1", "r2"}
 	case "chain": // D2 -> D -> R1
 		d.Inputs[0].Op, d.Inputs[0].Ref = "contains", refR1
 		d2 := &world.Decl{Name: "d2", Table: "d2t", Event: "Act", Sources: src(1), Inputs: []world.Input{
@@ -184,6 +227,7 @@ func c05Decls(j c05Job) *c05Graph {
 }
 
 func (g *c05Graph) decl(name string) *world.Decl {
+	name, _ = c05Split(name)
 	for _, d := range g.decls {
 		if d.Name == name {
 			return d
@@ -394,6 +438,23 @@ func c05Jobs(thorough bool) []c05Job {
 		jobs = append(jobs, c05Job{Graph: g, Steps: st("r2", 1, "d", 1), Batch: 1, DStart: 1, R2Start: 3, Blocks: 3, Reorg: 2,
 			Pre: st("r1", 3, "r2", 1, "d", 1), Mid: st("r2", c05R2FailingRounds)})
 	}
+	// two dependents on two different references, both listing orders: each waits for ITS reference only
+	pre := func(graph string, pre, steps map[string]int, batch int) {
+		jobs = append(jobs, c05Job{Graph: graph, Steps: steps, Batch: batch, DStart: 1, Pre: pre})
+	}
+	add("pair", st("r1", 0, "r2", 2, "d", 2), 1, false, 1)       // D's reference never starts, the other one runs
+	add("pair-rev", st("r2", 0, "r1", 2, "e", 2), 1, false, 1)   // same for E, listed before D
+	pre("pair", st("r1", 1, "r2", 3), st("d", 2, "e", 1), 1)     // the other reference is ahead of D's
+	pre("pair-rev", st("r2", 1, "r1", 3), st("e", 2, "d", 1), 1) // ... of E's
+	pre("pair", st("r2", 2), st("r1", 1, "d", 2), 1)
+	pre("pair-rev", st("r1", 2), st("r2", 1, "e", 2), 1)
+	// two sources; a reference that is not configured for one of the dependent's sources never records a
+	// position there: on that source the dependent does nothing, on the shared source it follows the reference
+	add("twosrc", st("r1", 0, "d@src2", 2), 2, false, 1)
+	add("twosrc", st("r1", 1, "d", 1, "d@src2", 1), 1, false, 1)
+	pre("twosrc", st("r1", 2), st("d", 1, "d@src2", 1), 2)
+	add("twosrc-two", st("r1", 0, "r2@src2", 2, "d@src2", 2), 2, false, 1) // on src2 R2 advances, R1 has nothing
+	pre("twosrc-two", st("r1", 2, "r2", 1, "r2@src2", 2), st("d", 1, "d@src2", 1), 1)
 	// largest jobs first: round-robin sharding then spreads them over the workers
 	sort.SliceStable(jobs, func(a, b int) bool { return c05Weight(jobs[a]) > c05Weight(jobs[b]) })
 	return jobs
@@ -436,7 +497,11 @@ func c05Prepare(j c05Job) (*c05Prep, error) {
 	p, ok := c05PrepCache[key]
 	if !ok {
 		p = &c05Prep{g: c05Decls(j)}
-		p.conf = world.ConfJSON([]world.Source{{Name: "src1", ChainID: 7, URL: "http://node1", Batch: j.Batch, Conc: max(1, j.Conc)}}, p.g.decls)
+		srcs := []world.Source{{Name: "src1", ChainID: 7, URL: "http://node1", Batch: j.Batch, Conc: max(1, j.Conc)}}
+		if p.g.two {
+			srcs = append(srcs, world.Source{Name: "src2", ChainID: 8, URL: "http://node2", Batch: j.Batch, Conc: max(1, j.Conc)})
+		}
+		p.conf = world.ConfJSON(srcs, p.g.decls)
 		conf, err := world.ParseConf(p.conf)
 		if err != nil {
 			return nil, err
@@ -507,7 +572,11 @@ func c05Names(j c05Job) []string {
 }
 
 func c05Exec(j c05Job, p *c05Prep, ch vrt.Chooser, states *vrt.StateSet, trace, fullIO bool) (res c05Result) {
-	w := world.New(ch, world.Cfg{Snap: p.snap, Chains: map[string]*simeth.Chain{"node1": p.init}})
+	chains := map[string]*simeth.Chain{"node1": p.init}
+	if p.g.two {
+		chains["node2"] = p.full
+	}
+	w := world.New(ch, world.Cfg{Snap: p.snap, Chains: chains})
 	w.V.States = states
 	w.V.TraceOn = trace
 	w.V.StateKey = func() uint64 { return w.CommitHash ^ uint64(w.Node("node1").Version)<<48 }
@@ -595,8 +664,9 @@ func c05Exec(j c05Job, p *c05Prep, ch vrt.Chooser, states *vrt.StateSet, trace, 
 		if f == simpg.FaultNone && len(b.SQL) > 0 && strings.Contains(b.SQL[0], "with latest as") {
 			if cur := w.V.Cur(); cur != nil {
 				var sn seen
+				_, csrc := c05Split(cur.Name)
 				for _, r := range p.g.deps[cur.Name] {
-					if _, ok := w.Latest("src1", r); ok {
+					if _, ok := w.Latest(csrc, r); ok {
 						sn.present = append(sn.present, r)
 					} else {
 						sn.missing = append(sn.missing, r)
@@ -618,11 +688,16 @@ func c05Exec(j c05Job, p *c05Prep, ch vrt.Chooser, states *vrt.StateSet, trace, 
 			if chg.Op != "insert" || !strings.HasSuffix(chg.Table, "task_updates") {
 				continue
 			}
-			ig, _ := chg.Row.Vals["ig_name"].(string)
+			igName, _ := chg.Row.Vals["ig_name"].(string)
+			rowSrc, _ := chg.Row.Vals["src_name"].(string)
+			ig := c05Key(igName, rowSrc) // the task that recorded this position
 			if bn, _ := chg.Row.Vals["num"].(*big.Int); bn != nil {
 				for dep, refs := range p.g.deps {
+					if _, dsrc := c05Split(dep); dsrc != rowSrc {
+						continue
+					}
 					for _, r := range refs {
-						if m, ok := seenMax[dep][r]; r == ig && seenMax[dep] != nil && (!ok || bn.Uint64() > m) {
+						if m, ok := seenMax[dep][r]; r == igName && seenMax[dep] != nil && (!ok || bn.Uint64() > m) {
 							seenMax[dep][r] = bn.Uint64()
 						}
 					}
@@ -640,7 +715,7 @@ func c05Exec(j c05Job, p *c05Prep, ch vrt.Chooser, states *vrt.StateSet, trace, 
 			res.moves++
 			var missing, behind, present []string
 			for _, r := range refs {
-				cur, ok := w.Latest("src1", r)
+				cur, ok := w.Latest(rowSrc, r)
 				// a position the referenced integration HELD at some moment of the dependent's current step counts:
 				// positions are not monotonic (a reorg rolls the referenced integration back), and the dependent
 				// decides on what it could read during its step
@@ -671,8 +746,14 @@ func c05Exec(j c05Job, p *c05Prep, ch vrt.Chooser, states *vrt.StateSet, trace, 
 				return
 			}
 			d := p.g.decl(ig)
-			tcols := cols[ig]
-			got := world.RenderDump(w.PG.Dump(d.Table), tcols)
+			tcols := cols[igName]
+			var mine []simpg.Row
+			for _, r := range w.PG.Dump(d.Table) {
+				if sn, _ := r.Vals["src_name"].(string); sn == rowSrc {
+					mine = append(mine, r)
+				}
+			}
+			got := world.RenderDump(mine, tcols)
 			var wantRows []world.Row
 			for _, r := range p.final[ig] {
 				if r["block_num"].(*big.Int).Uint64() <= n {
@@ -705,25 +786,35 @@ func c05Exec(j c05Job, p *c05Prep, ch vrt.Chooser, states *vrt.StateSet, trace, 
 		}
 		byName := map[string]*world.Task{}
 		for _, t := range tasks {
-			byName[t.IG] = t
+			byName[c05Key(t.IG, t.Src)] = t
 		}
 		for _, d := range p.g.decls {
 			cols[d.Name] = w.TableCols(d.Table)
+		}
+		ownRows := func(table, src string) []simpg.Row { // the rows a task of this source wrote (an integration's tasks share its table)
+			var out []simpg.Row
+			for _, r := range w.PG.Dump(table) {
+				if sn, _ := r.Vals["src_name"].(string); sn == src {
+					out = append(out, r)
+				}
+			}
+			return out
 		}
 		// oneStep runs one Converge of an integration's long-lived task and judges it; false = stop
 		oneStep := func(name string, s int) bool {
 			task := byName[name]
 			refs, dependent := p.g.deps[name]
 			d := p.g.decl(name)
+			igName, tsrc := c05Split(name)
 			var before []string
 			var curBefore world.Cursor
 			var hadBefore bool
 			if dependent {
-				before = world.RenderDump(w.PG.Dump(d.Table), cols[name])
-				curBefore, hadBefore = w.Latest("src1", name)
+				before = world.RenderDump(ownRows(d.Table, tsrc), cols[igName])
+				curBefore, hadBefore = w.Latest(tsrc, igName)
 				seenMax[name] = map[string]uint64{}
 				for _, r := range refs {
-					if c, ok := w.Latest("src1", r); ok {
+					if c, ok := w.Latest(tsrc, r); ok {
 						seenMax[name][r] = c.Num
 					}
 				}
@@ -750,15 +841,15 @@ func c05Exec(j c05Job, p *c05Prep, ch vrt.Chooser, states *vrt.StateSet, trace, 
 			// a referenced integration that has still no recorded position now had none during the whole step
 			var missing []string
 			for _, r := range refs {
-				if _, ok := w.Latest("src1", r); !ok {
+				if _, ok := w.Latest(tsrc, r); !ok {
 					if _, held := seenMax[name][r]; !held {
 						missing = append(missing, r)
 					}
 				}
 			}
 			if len(missing) > 0 {
-				after := world.RenderDump(w.PG.Dump(d.Table), cols[name])
-				curAfter, hadAfter := w.Latest("src1", name)
+				after := world.RenderDump(ownRows(d.Table, tsrc), cols[igName])
+				curAfter, hadAfter := w.Latest(tsrc, igName)
 				if out != "nothing" || strings.Join(before, "\n") != strings.Join(after, "\n") || hadAfter != hadBefore || curAfter.Num != curBefore.Num {
 					key := "not-noop-without-dependency-position:" + tag
 					if len(missing) < len(refs) {
@@ -778,22 +869,28 @@ func c05Exec(j c05Job, p *c05Prep, ch vrt.Chooser, states *vrt.StateSet, trace, 
 			}
 		}
 		// sequential prefix (same task objects as the concurrent phase)
+		var order []string // tasks in configuration order
 		for _, d := range p.g.decls {
-			for s := 0; s < j.Pre[d.Name]; s++ {
-				if byName[d.Name] == nil {
-					w.HarnessErr = "no task " + d.Name
+			for _, sr := range d.Sources {
+				order = append(order, c05Key(d.Name, sr.Name))
+			}
+		}
+		for _, k := range order {
+			for s := 0; s < j.Pre[k]; s++ {
+				if byName[k] == nil {
+					w.HarnessErr = "no task " + k
 					return
 				}
-				if !oneStep(d.Name, -1-s) || res.vio != nil {
+				if !oneStep(k, -1-s) || res.vio != nil {
 					return
 				}
 			}
 		}
 		if j.Reorg > 0 && len(j.Mid) > 0 {
 			w.SetChain("node1", p.reorged, "reorg")
-			for _, d := range p.g.decls {
-				for s := 0; s < j.Mid[d.Name]; s++ {
-					if !oneStep(d.Name, -100-s) || res.vio != nil {
+			for _, k := range order {
+				for s := 0; s < j.Mid[k]; s++ {
+					if !oneStep(k, -100-s) || res.vio != nil {
 						return
 					}
 				}
@@ -857,10 +954,13 @@ func c05Exec(j c05Job, p *c05Prep, ch vrt.Chooser, states *vrt.StateSet, trace, 
 	// outcome class: final cursors of all integrations
 	var parts []string
 	for _, d := range p.g.decls {
-		if c, ok := w.Latest("src1", d.Name); ok {
-			parts = append(parts, fmt.Sprintf("%s=%d", d.Name, c.Num))
-		} else {
-			parts = append(parts, d.Name+"=-")
+		for _, sr := range d.Sources {
+			k := c05Key(d.Name, sr.Name)
+			if c, ok := w.Latest(sr.Name, d.Name); ok {
+				parts = append(parts, fmt.Sprintf("%s=%d", k, c.Num))
+			} else {
+				parts = append(parts, k+"=-")
+			}
 		}
 	}
 	res.outcome = "held:" + strings.Join(parts, ",")
